@@ -33,8 +33,18 @@ class _Kill(BaseException):
     """Unwinds parked task threads at the end of a run."""
 
 
-class SimBrokenPool(Exception):
-    """Stand-in for concurrent.futures.process.BrokenProcessPool."""
+try:
+    from concurrent.futures.process import BrokenProcessPool as _BPP
+except Exception:  # pylint: disable=broad-except
+    _BPP = Exception
+
+
+class SimBrokenPool(_BPP):
+    """What the futures of a pool report after one of its worker processes died."""
+
+
+class _TaskDeath(BaseException):
+    """Unwinds the task thread of a worker process that dies (fault injection)."""
 
 
 class _Carrier:
@@ -122,6 +132,9 @@ class Sim:
         self.pglobals = None
         self.live_ctx = 'main'
         self.saved_ctx = {}
+        # worker-death fault: (task id, number of manager requests / effects after which it dies)
+        self.die = None
+        self.ops_by_task = {}
 
     # -- time ---------------------------------------------------------------
     def perf_counter(self):
@@ -249,8 +262,24 @@ class Sim:
                                                      self.max_concurrent)
 
     # -- manager-side request -------------------------------------------------
+    def maybe_die(self):
+        """Fault injection: the worker process of the current task dies right here."""
+        me = self.current
+        if self.die is None or me is self.main:
+            return
+        n = self.ops_by_task.get(me.name, 0)
+        self.ops_by_task[me.name] = n + 1
+        if me.name == f't{self.die[0]}' and n == self.die[1]:
+            self.die = None
+            self.run.probe('fault_worker_death')
+            self.run.event('worker-death', me.name, n)
+            for ex in self.executors:
+                ex._break(me)
+            raise _TaskDeath()
+
     def proxy_op(self, oid, op):
         """Every manager request is a pre-emption point, then atomic."""
+        self.maybe_die()
         who = self.current.name
         d = self.op_delays[self.ch.choose('opdelay', len(self.op_delays))] \
             if len(self.op_delays) > 1 else self.op_delays[0]
@@ -338,6 +367,7 @@ class SimFuture:
                 exc, me.pending_exc = me.pending_exc, None
                 raise exc
             sim.run.event('start', self.tid)
+            sim.maybe_die()
             self.t_start = sim.now
             fn, args, kwargs = pickle.loads(self.payload)
             if sim.trace_hook is not None:
@@ -354,6 +384,9 @@ class SimFuture:
             return
         except (SimDeadlock, SimStepCap):
             return
+        except _TaskDeath:
+            self._exc = SimBrokenPool('A process in the process pool was terminated abruptly while the future was '
+                                      'running or pending.')
         except BaseException as e:  # pylint: disable=broad-except
             try:
                 self._exc = _roundtrip(e)
@@ -364,6 +397,10 @@ class SimFuture:
             sim.pause(0.0)
         except (_Kill, SimDeadlock, SimStepCap):
             return
+        except _TaskDeath:
+            self._res = None
+            self._exc = SimBrokenPool('A process in the process pool was terminated abruptly while the future was '
+                                      'running or pending.')
         self.state = 'done'
         self.t_end = sim.now
         sim.run.event('end', self.tid, 'exc' if self._exc is not None else 'ok')
@@ -456,6 +493,20 @@ class SimExecutor:
             a.thread = _carrier()
             sim.actors.append(a)
             a.thread.carry(fut._body)
+
+    def _break(self, dying_actor):
+        """A worker died: the real pool marks itself broken, fails every queued future and terminates the
+        remaining workers (their effects so far persist)."""
+        self.broken = True
+        for fut in self.queue:
+            fut.state = 'done'
+            fut._exc = SimBrokenPool('A process in the process pool was terminated abruptly while the future was '
+                                     'running or pending.')
+            self.done_order.append(fut)
+        self.queue = []
+        for fut in self.running:
+            if fut.actor is not dying_actor and fut.actor is not None:
+                fut.actor.pending_exc = _TaskDeath()
 
     def _finished(self, fut):
         self.slots[fut.slot] = None
